@@ -334,12 +334,18 @@ namespace nmtools::utils
             }
             // "specialize" on index array, avoid using ndindex
             else if constexpr (meta::is_index_array_v<T> && meta::is_index_array_v<U>) {
+                [[maybe_unused]] constexpr auto T_LEN = meta::len_v<T>;
+                [[maybe_unused]] constexpr auto U_LEN = meta::len_v<U>;
+                // fixed-size index arrays of different length can never be equal
+                if constexpr ((T_LEN > 0) && (U_LEN > 0) && (T_LEN != U_LEN)) {
+                    return false;
+                } else {
                 bool equal = true;
                 // TODO: static assert whenever possible
                 // NOTE: use assert instead of exception, to support compile with -fno-exceptions
-                nmtools_cassert ( (nm_size_t)len(t)==(nm_size_t)len(u)
-                    , "mismatched dimension"
-                );
+                if ((nm_size_t)len(t)!=(nm_size_t)len(u)) {
+                    return false;
+                }
                 // prefer fixed size for indexing to allow constant index
                 if constexpr (meta::is_fixed_index_array_v<T>) {
                     constexpr auto N = meta::fixed_index_array_size_v<T>;
@@ -374,6 +380,8 @@ namespace nmtools::utils
                     }
                     return equal;
                 }
+            
+                }
             }
             else if constexpr (meta::is_slice_index_array_v<T> && meta::is_slice_index_array_v<U>) {
                 auto n_left  = nmtools::len(t);
@@ -399,12 +407,15 @@ namespace nmtools::utils
                     // TODO: static assert whenever possible
                     // NOTE: use assert instead of exception, to support compile with -fno-exceptions
                     // TODO: use maybe type
-                    nmtools_cassert( ((common_t)t_dim == (common_t)u_dim)
-                        , "dimension mismatch for isequal"
-                    );
+                    if ((common_t)t_dim != (common_t)u_dim) {
+                        return false;
+                    }
                 }
                 auto t_shape = ::nmtools::shape(t);
                 auto u_shape = ::nmtools::shape(u);
+                if (!isequal(t_shape,u_shape)) {
+                    return false;
+                }
                 auto t_indices = ndindex(t_shape);
                 auto u_indices = ndindex(u_shape);
                 // TODO: static assert whenever possible
